@@ -1,4 +1,4 @@
-import Xp.Proofs.C20Install
+import Xp.Proofs.C20Init
 import Xp.Gen.C20Init
 /-
 C20 property theorems: initialisation is idempotent and never duplicates or
@@ -28,10 +28,10 @@ theorem dns_names_for_service_matches : dnsNamesForService "svc" "ns" = Xp.Gen.c
 /-! ### existing TLS material is kept (for every fault plan, over every history of runs) -/
 
 /-- An existing, complete certificate authority is never regenerated: at every instant of every
-sequence of runs (each aborted anywhere or not) the CA secret is exactly what it was. -/
+sequence of runs (each aborted anywhere or not) the CA secret – any secret holding both tls.crt and
+tls.key – is exactly what it was. -/
 theorem ca_kept (g : Generator) (steps : List Step) (runs : List (Plan × Nat)) (s : Store)
-    (ca : String) (sec : Secret) (hca : ca ∈ caNames steps)
-    (h : findSecret s ca = some sec) (hc : isComplete sec = true) :
+    (ca : String) (sec : Secret) (h : findSecret s ca = some sec) (hc : isComplete sec = true) :
     ∀ x ∈ history g steps runs s, findSecret x ca = some sec := by
   intro x hx
   exact kept_history g steps runs s x hx ca sec h (Or.inl hc)
@@ -106,6 +106,155 @@ theorem no_second_package_fails_on_unfixed_witness :
   subst hq0
   simp at hn
 
+/-! ### newly issued certificates chain to the stored CA and cover the DNS names -/
+
+/-- Newly issued certificates chain to the stored authority: whenever a TLS secret (other than the
+CA secret) differs from what it was at the start – at any instant of any sequence of runs, each
+under any fault plan – it holds a certificate signed by the key pair of the certificate stored,
+complete, in the CA secret, its private key, and that very CA certificate as ca.crt.
+(`g.Sound`: the generator signs with the signer it is given; x509 itself is checked by test only.) -/
+theorem new_certs_chain_to_stored_ca (g : Generator) (hg : g.Sound) (steps : List Step) (ca : String)
+    (hca : ∀ c ∈ caNames steps, c = ca) (runs : List (Plan × Nat)) (s : Store) :
+    ∀ x ∈ history g steps runs s, ∀ name, name ≠ ca → findSecret x name ≠ findSecret s name →
+      ∃ sec C l c, findSecret x ca = some sec ∧ isComplete sec = true ∧ sec.crt = .cert C ∧
+        findSecret x name = some l ∧ l.crt = .cert c ∧ l.key = .key c.kp ∧ l.ca = .cert C ∧ c.signedBy = C.kp := by
+  intro x hx name hn hne
+  obtain ⟨sec, C, l, c, _, h1, h2, h3, h4, h5, h6, h7, h8, _⟩ := issued_history g hg steps ca hca runs s x hx name hn hne
+  exact ⟨sec, C, l, c, h1, h2, h3, h4, h5, h6, h7, h8⟩
+
+/-- ... and cover the service's DNS names: the certificate of such a secret carries exactly the DNS
+names some TLS step of the list configures for that secret. -/
+theorem dns_covered (g : Generator) (hg : g.Sound) (steps : List Step) (ca : String)
+    (hca : ∀ c ∈ caNames steps, c = ca) (runs : List (Plan × Nat)) (s : Store) :
+    ∀ x ∈ history g steps runs s, ∀ name, name ≠ ca → findSecret x name ≠ findSecret s name →
+      ∃ l c ref, findSecret x name = some l ∧ l.crt = .cert c ∧ ref ∈ leafRefs steps ∧ ref.name = name ∧ c.dns = ref.dns := by
+  intro x hx name hn hne
+  obtain ⟨_, _, l, c, ref, _, _, _, h4, h5, _, _, _, h9, h10, h11⟩ := issued_history g hg steps ca hca runs s x hx name hn hne
+  exact ⟨l, c, ref, h4, h5, h9, h10, h11⟩
+
+/-- For the step list of core.initCommand.Run the CA is `cfg.ca` and the webhook server certificate is
+issued for DNSNamesForService(service, namespace). -/
+theorem init_tls_names (cfg : Cfg) :
+    (∀ c ∈ caNames (initSteps cfg), c = cfg.ca) ∧
+    (∀ ref ∈ leafRefs (initSteps cfg), ref.name = cfg.server → cfg.server ≠ cfg.client → cfg.server ≠ cfg.ess →
+      ref.dns = dnsNamesForService cfg.svcName cfg.svcNs) := by
+  unfold initSteps
+  cases hw : cfg.webhook <;> by_cases he : cfg.ess = "" <;>
+    simp [hw, he, migrators, caNames, leafRefs, optRefs] <;> (try intro ref h) <;>
+    (try rcases h with rfl | rfl | rfl) <;> simp_all
+
+/-! ### idempotence -/
+
+/-- Every step is idempotent: after a completed run of the step, running it again (with any nonce)
+returns success, generates nothing (the nonce comes back unchanged) and leaves the store exactly
+as it is at every instant – no write changes anything.
+(`StepHyp`: a CRD / webhook directory declares every object once; the requested packages are
+pairwise distinct and not already installed twice.) -/
+theorem step_idempotent (g : Generator) (st : Step) (s t : Store) (n n' : Nat) (hyp : StepHyp st s)
+    (h : run sem Plan.allOk 0 (st.prog g n) s = (t, some (Res.ok, n'))) :
+    ∀ m, run sem Plan.allOk 0 (st.prog g m) t = (t, some (Res.ok, m)) ∧
+         ∀ x ∈ reach sem Plan.allOk 0 (st.prog g m) t, x = t := by
+  rw [run_allOk] at h
+  have h' : evalOk (st.prog g n) s = (t, (Res.ok, n')) := by
+    simp only [Prod.mk.injEq, Option.some.injEq] at h
+    exact Prod.ext h.1 h.2
+  intro m
+  obtain ⟨f1, f2⟩ := step_fix g m st t (step_establishes g n n' st s t hyp h')
+  rw [run_allOk, reach_allOk, f1]
+  exact ⟨rfl, f2⟩
+
+/-- Initialisation is idempotent: after a completed run of Crossplane's initialisation (from ANY
+cluster state) a second run yields the same store, completes, generates no certificate, and no
+write of it changes anything at any instant. -/
+theorem init_idempotent (g : Generator) (cfg : Cfg) (s t : Store) (n n' d : Nat) (hyp : InitHyp cfg s)
+    (h : run sem Plan.allOk 0 (initProg g cfg n) s = (t, some (Res.ok, n', d))) :
+    ∀ m, run sem Plan.allOk 0 (initProg g cfg m) t = (t, some (Res.ok, m, d)) ∧
+         ∀ x ∈ reach sem Plan.allOk 0 (initProg g cfg m) t, x = t := by
+  rw [run_allOk] at h
+  have h' : evalOk (initProg g cfg n) s = (t, (Res.ok, n', d)) := by
+    simp only [Prod.mk.injEq, Option.some.injEq] at h
+    exact Prod.ext h.1 h.2
+  obtain ⟨hd, hlen⟩ := init_done g cfg s t n n' d hyp h'
+  intro m
+  obtain ⟨f1, f2⟩ := runSteps_fix g (initSteps cfg) t hd m 0
+  rw [run_allOk, reach_allOk]
+  unfold initProg
+  rw [f1]
+  exact ⟨by simp [hlen], f2⟩
+
+/-- The post-condition of a completed step survives every later step that is `okAfter` it (all
+pairs of core.initCommand.Run are), at every instant and under every fault plan: an error, a
+conflict or a crash of a later step never destroys what an earlier step established. -/
+theorem completed_steps_stay_done (g : Generator) (n : Nat) (a b : Step) (h : okAfter a b = true)
+    (plan : Plan) (k : Nat) (s : Store) (hd : StepDone a s) :
+    ∀ x ∈ reach sem plan k (b.prog g n) s, StepDone a x :=
+  done_stable g n a b h plan k s hd
+
+/-- Crash, then re-run: let a run be aborted anywhere (any outcome at any API call: error, conflict,
+crash before or after the call took effect) and let a fault-free run from the store it left behind
+complete. Then that run reaches the same post-condition as an undisturbed initialisation – every
+step's `StepDone` – which is a fixpoint of the initialisation; existing TLS material of the original
+cluster is still in place, and defaults / foreign fields are untouched.
+(The package hypothesis of `InitHyp` is required of the store at restart.) -/
+theorem crash_then_rerun (g : Generator) (cfg : Cfg) (s : Store) (plan : Plan) (n m m' d : Nat) (t : Store)
+    (hyp : InitHyp cfg (run sem plan 0 (initProg g cfg n) s).1)
+    (h : run sem Plan.allOk 0 (initProg g cfg m) (run sem plan 0 (initProg g cfg n) s).1 = (t, some (Res.ok, m', d))) :
+    (∀ a ∈ initSteps cfg, StepDone a t) ∧
+    (∀ k, run sem Plan.allOk 0 (initProg g cfg k) t = (t, some (Res.ok, k, d))) ∧
+    KeptFrom (caNames (initSteps cfg)) s t ∧ Untouched s t := by
+  have hmem : t ∈ history g (initSteps cfg) [(plan, n), (Plan.allOk, m)] s := by
+    simp only [history, List.mem_append, List.mem_singleton]
+    right; left
+    have := run_mem_reach sem Plan.allOk 0 (initProg g cfg m) (run sem plan 0 (initProg g cfg n) s).1
+    rw [h] at this
+    exact this
+  have h0 := h
+  rw [run_allOk] at h0
+  have h' : evalOk (initProg g cfg m) (run sem plan 0 (initProg g cfg n) s).1 = (t, (Res.ok, m', d)) := by
+    simp only [Prod.mk.injEq, Option.some.injEq] at h0
+    exact Prod.ext h0.1 h0.2
+  obtain ⟨hd, _⟩ := init_done g cfg _ t m m' d hyp h'
+  exact ⟨hd, fun k => (init_idempotent g cfg _ t m m' d hyp h k).1,
+    kept_history g (initSteps cfg) _ s t hmem, untouched_history g (initSteps cfg) _ s t hmem⟩
+
+/-! ### the CA bundle -/
+
+/-- Core CRDs and webhook configurations end up carrying the current CA bundle: after a completed
+initialisation with webhooks enabled the webhook TLS secret holds a non-empty tls.crt, every declared
+CRD with webhook conversion carries it as caBundle, and every declared webhook configuration (that
+declares webhooks) consists of exactly its declared webhooks, each with that bundle and the
+configured service. -/
+theorem ca_bundle_injected (g : Generator) (cfg : Cfg) (s t : Store) (n n' d : Nat) (hyp : InitHyp cfg s)
+    (hw : cfg.webhook = true)
+    (h : run sem Plan.allOk 0 (initProg g cfg n) s = (t, some (Res.ok, n', d))) :
+    ∃ sec, findSecret t cfg.server = some sec ∧ sec.crt ≠ .empty ∧
+      (∀ f, FileObj.crd f ∈ cfg.crdDir.objs → f.conv = true →
+        ∃ c, findCrd t f.name = some c ∧ c.conv = true ∧ c.bundle = sec.crt) ∧
+      (∀ f, FileObj.whc f ∈ cfg.whcDir.objs → f.hooks ≠ [] →
+        ∃ w, findWhc t f.kind (whcName f) = some w ∧
+          w.hooks = desiredHooks f sec.crt ⟨cfg.svcName, cfg.svcNs, cfg.svcPort⟩) := by
+  rw [run_allOk] at h
+  have h' : evalOk (initProg g cfg n) s = (t, (Res.ok, n', d)) := by
+    simp only [Prod.mk.injEq, Option.some.injEq] at h
+    exact Prod.ext h.1 h.2
+  obtain ⟨hd, _⟩ := init_done g cfg s t n n' d hyp h'
+  have hc : StepDone (.crds (some cfg.server) cfg.crdDir) t := hd _ (by simp [initSteps, hw])
+  have hwh : StepDone (.whcs cfg.server ⟨cfg.svcName, cfg.svcNs, cfg.svcPort⟩ cfg.whcDir) t := hd _ (by simp [initSteps, hw])
+  obtain ⟨cb, ⟨sec, hs, hcrt, hne⟩, _, hobjs⟩ := hc
+  obtain ⟨cb', ⟨sec', hs', hcrt', _⟩, _, hobjs'⟩ := hwh
+  rw [hs] at hs'; cases hs'
+  refine ⟨sec, hs, hcrt ▸ hne, ?_, ?_⟩
+  · intro f hf hconv
+    obtain ⟨f', e, _, hfix⟩ := hobjs _ hf
+    cases e
+    rw [hcrt]
+    exact crdFix_injected hfix hconv
+  · intro f hf hh
+    obtain ⟨f', e, hfix⟩ := hobjs' _ hf
+    cases e
+    rw [hcrt']
+    exact whcFix_injected hfix hh
+
 /-! ### non-vacuity -/
 
 /-- the repaired installer on the D9 witness updates `my-aws` in place -/
@@ -116,6 +265,80 @@ example :
       "xpkg.upbound.io/crossplane/provider-aws:v1.1.0", "xpkg.upbound.io/crossplane/provider-aws"⟩
     let s : Store := ⟨[], [⟨.provider, "my-aws", r0.str, some r0, 3⟩], [], [], [], none, none, none⟩
     (evalOk (installStep [⟨r1.str, some r1⟩] [] []) s).1.pkgs = [⟨.provider, "my-aws", r1.str, some r1, 3⟩] := by
+  decide
+
+
+/-- the generator used to replay real runs satisfies the soundness assumption -/
+example : stdGen.Sound := by
+  refine ⟨?_, ?_, ?_⟩
+  · intro dns ca sg n kp c h
+    cases sg with
+    | none => simp [stdGen] at h; obtain ⟨rfl, rfl⟩ := h; exact ⟨rfl, rfl, rfl⟩
+    | some sg =>
+      simp only [stdGen] at h
+      split at h
+      · simp at h; obtain ⟨rfl, rfl⟩ := h; exact ⟨rfl, rfl, rfl⟩
+      · cases h
+  · intro dns ca n kp c h
+    simp [stdGen] at h; obtain ⟨rfl, rfl⟩ := h; rfl
+  · intro dns ca sg n kp c h
+    simp only [stdGen] at h
+    split at h
+    · rename_i hk
+      simp at h; obtain ⟨rfl, rfl⟩ := h; exact ⟨rfl, hk⟩
+    · cases h
+
+/-- a small installation: webhooks on, one CRD with webhook conversion, two webhook configurations, a
+host-qualified provider that is already installed under a custom name, a partially initialised
+cluster (CA present, server certificate missing) -/
+def exCfg : Cfg :=
+  { ns := "crossplane-system", sa := "crossplane", webhook := true, svcName := "crossplane-webhooks",
+    svcNs := "crossplane-system", svcPort := 9443, ca := "crossplane-root-ca", server := "crossplane-tls-server",
+    client := "crossplane-tls-client", ess := "ess-server",
+    p := [⟨"xpkg.upbound.io/crossplane/provider-aws:v1.1.0", some ⟨"xpkg.upbound.io", "crossplane/provider-aws", "v1.1.0", false,
+      "xpkg.upbound.io/crossplane/provider-aws:v1.1.0", "xpkg.upbound.io/crossplane/provider-aws"⟩⟩],
+    c := [], f := [],
+    crdDir := ⟨false, [.crd ⟨"locks.pkg.crossplane.io", 2, [("v1beta1", true), ("v1alpha1", false)], true⟩]⟩,
+    whcDir := ⟨false, [.whc ⟨.validating, "validating-webhook-configuration", ["a.crossplane.io"]⟩,
+                       .whc ⟨.mutating, "mutating-webhook-configuration", ["b.crossplane.io"]⟩]⟩ }
+
+def exStore : Store :=
+  { secrets := [⟨"crossplane-root-ca", .cert ⟨1, 1, ["crossplane-root-ca"], true⟩, .key 1, .empty, 0, 0⟩],
+    pkgs := [⟨.provider, "my-aws", "xpkg.upbound.io/crossplane/provider-aws:v1.0.0",
+      some ⟨"xpkg.upbound.io", "crossplane/provider-aws", "v1.0.0", false,
+        "xpkg.upbound.io/crossplane/provider-aws:v1.0.0", "xpkg.upbound.io/crossplane/provider-aws"⟩, 3⟩],
+    crds := [⟨"locks.pkg.crossplane.io", 1, [("v1alpha1", true)], false, .empty, ["v1alpha1"], 7⟩],
+    whcs := [], crs := [⟨"locks.pkg.crossplane.io", "lock", 0⟩], lock := some 2, sc := none, drc := none }
+
+/-- the hypotheses of `init_idempotent` / `ca_bundle_injected` hold for it and the run completes -/
+example : (run sem Plan.allOk 0 (initProg stdGen exCfg 100) exStore).2.map (·.1) = some Res.ok := by decide
+
+example : InitHyp exCfg exStore := by
+  refine ⟨fun _ => by decide, by decide, by decide, ?_, ?_, ?_, ?_⟩
+  · intro l hl
+    have : buildAll resolve (buildIndex (listing exStore .provider)) exCfg.p = some [("my-aws", ⟨"xpkg.upbound.io", "crossplane/provider-aws", "v1.1.0", false,
+      "xpkg.upbound.io/crossplane/provider-aws:v1.1.0", "xpkg.upbound.io/crossplane/provider-aws"⟩)] := by decide
+    rw [this] at hl; cases hl; decide
+  · intro l hl
+    have : buildAll resolve (buildIndex (listing exStore .configuration)) exCfg.c = some [] := by decide
+    rw [this] at hl; cases hl; decide
+  · intro l hl
+    have : buildAll resolve (buildIndex (listing exStore .function)) exCfg.f = some [] := by decide
+    rw [this] at hl; cases hl; decide
+  · intro q hq q' hq' _ _ _ _
+    simp [exStore] at hq hq'
+    rw [hq, hq']
+
+/-- ... it updates `my-aws` in place, keeps the CA, issues a server certificate chained to it with the
+service's DNS names, and a run crashed after its 8th API call and then repeated completes with the
+same packages, CRDs and webhook configurations -/
+example :
+    let t := (run sem Plan.allOk 0 (initProg stdGen exCfg 100) exStore).1
+    let r := run sem Plan.allOk 0 (initProg stdGen exCfg 200) (run sem (Plan.at 7 .crashAfter) 0 (initProg stdGen exCfg 100) exStore).1
+    t.pkgs.map (fun p => (p.name, p.raw, p.extra)) = [("my-aws", "xpkg.upbound.io/crossplane/provider-aws:v1.1.0", 3)] ∧
+    findSecret t "crossplane-root-ca" = findSecret exStore "crossplane-root-ca" ∧
+    (findSecret t "crossplane-tls-server").map (·.crt) = some (.cert ⟨100, 1, ["crossplane-webhooks", "crossplane-webhooks.crossplane-system", "crossplane-webhooks.crossplane-system.svc"], false⟩) ∧
+    r.2.map (·.1) = some Res.ok ∧ r.1.pkgs = t.pkgs ∧ r.1.crds = t.crds ∧ r.1.whcs.map (·.name) = t.whcs.map (·.name) := by
   decide
 
 end Xp.C20
